@@ -159,6 +159,25 @@ func waitHandler(id int, d time.Duration) string {
 	}
 }
 
+// waitAllHandlersParked waits until every existing port handler goroutine is parked (or none is
+// left); it gives up silently after d - the case is then judged as before.
+func waitAllHandlersParked(d time.Duration) {
+	deadline := time.Now().Add(d)
+	for {
+		all := true
+		for _, g := range handlerGoroutines() {
+			if !g.parked {
+				all = false
+			}
+		}
+		if all || time.Now().After(deadline) {
+			return
+		}
+		runtime.Gosched()
+		time.Sleep(50 * time.Microsecond)
+	}
+}
+
 // ---- oracle: what the decoder of this port writes for this stream ----
 var writingPorts = map[int]bool{80: true, 9200: true}
 
